@@ -190,6 +190,7 @@ def v15_sign_case(kd, hn, msg, acc):
     digest = B.ref_digest(hn, msg)
     em = v15_em(hn, digest, k)
     h = B.libhash(hn, msg)
+    acc.count("sign_calls")
     signer = pkcs1_15.new(libkey(kd))
     out = B.lib_outcome(signer.sign, h)
     if em is None:
@@ -459,6 +460,7 @@ def pss_sign_case(kd, cfg, msg, salt, acc):
     except ValueError:
         em = None
     h = B.libhash(hn, msg)
+    acc.count("sign_calls")
     tape = B.TapeBytes(salt)
     try:
         signer = pss_obj(kd, cfg, True, tape)
@@ -647,7 +649,6 @@ def worker(shards):
             for mn in mnames:
                 msg = msgs[mn]
                 sig = v15_sign_case(kd, hn, msg, acc)
-                acc.count("signatures")
                 if sig is None:
                     # modulus too short for this DigestInfo: every candidate must be refused with ValueError
                     for ci, (tag, c) in enumerate((("zeros", bytes(kd["k"])), ("ones", R.i2osp(1, kd["k"])), ("empty", b""))):
@@ -692,7 +693,6 @@ def worker(shards):
                     salts = [bytes(max(sl, 0))]
                 for si, salt in enumerate(salts):
                     s1 = pss_sign_case(kd, cfg, msg, salt, acc)
-                    acc.count("signatures")
                     if s1 is not None:
                         _tally(acc, "pss", kd, hn, "authentic", *pss_verify_case(kd, cfg, msg, s1, "authentic", acc, demand=True))
                         sig = sig or s1
